@@ -109,7 +109,6 @@ class Machine:
         self._call_stack.reset(self._constants)
         self._vm_math.reset()
         self._vm_io.reset()
-        self._keep_running = True
         self._enable_pause = True
 
     def run(self, program) -> None:
@@ -117,7 +116,6 @@ class Machine:
         loader.load(program)
         self._routines = loader.get_routines()
         self._program = loader.get_code()
-        self._keep_running = True
 
         logging.debug('Starting to execute.')
         self._clock.start()
@@ -140,6 +138,9 @@ class Machine:
         except Exception as ex:
             logging.error("Machine stopped due to {} at instruction {}"
                           .format(ex, self._reg.pc))
+        finally:
+            # Re-arm for the next run; a stop is aimed at one run only.
+            self._keep_running = True
 
     def stop(self) -> None:
         self._keep_running = False
